@@ -219,7 +219,7 @@ def run(P, R):
     un = [a for a in own_nodes(up.node) if isinstance(a, ast.Assign) and isinstance(a.targets[0], ast.Tuple)
           and ast.unparse(a.value) == 'found']
     ok = len(pops) == 1 and len(un) == 1 and [ast.unparse(a) for a in pops[0].args] == [ast.unparse(un[0].targets[0].elts[0])] \
-        and any(not f[1] and f[0] == "proc_stats['process'].pid == pid" for f in fm.at(pops[0]))
+        and fm.has(pops[0], "proc_stats['process'].pid == pid", False)
     R.check(r4, ok, 'the collector removes the very entry it found for that namespec', 'drop|collector', up.loc(),
             'update_process_list pops %s: another process than the one whose PID changed is evicted and its stop is '
             'never published' % [ast.unparse(c) for c in pops])
